@@ -11,6 +11,7 @@ mod exec_cross;
 mod exec_float;
 mod exec_int;
 mod exec_ratio;
+mod exec_third;
 mod f7;
 mod gen;
 mod gen_fr;
